@@ -68,7 +68,12 @@ def generate(tier, rng):
         stocks = []
         for i, s in enumerate(base["stocks"]):
             stocks.append(dict(s, name=DECOR[(k + i) % len(DECOR)].format(f"Stock {i}"), proc=(ren[s["proc"]] if s["proc"] else None)))
-        cases.append(dict(stream="exact", kind="system", sys=dict(uni=base["uni"], procs=procs, flows=flows, stocks=stocks), with_in_out=(k % 2 == 0),
+        uni_k = base["uni"]
+        if k % 4 == 1:
+            # a dimension of the system that no flow and no stock is defined over (one that only parameters use): it belongs to the
+            # system's dimensions all the same, and to every export of them
+            uni_k = dict(uni_k, z=dict(letter="z", name="zone (unused)", items=["z0", "z1"]))
+        cases.append(dict(stream="exact", kind="system", sys=dict(uni=uni_k, procs=procs, flows=flows, stocks=stocks), with_in_out=(k % 2 == 0),
                           own_names=(k % 3 == 2)))
     # whole numbers beyond 2^53 held in integer arrays (counts of items, money in cents): the numpy dictionary and the pickle hold
     # exactly these numbers
